@@ -40,6 +40,7 @@ void tokens_push(AsmContext *asm_context, const char *token, int token_type)
   for (int k = 1; k < K_END; k++) if (strcmp(token, k_text[k]) == 0) { pb_kind = k; return; }
 }
 extern "C" long long atoll(const char *s) { return val[s[0] - '0']; }
+extern "C" unsigned long long strtoull(const char *s, char **end, int base) { return (unsigned long long)val[s[0] - '0']; }
 void print_error_unexp(AsmContext *, const char *) { diag = 1; }
 void print_error(AsmContext *, const char *) { diag = 1; }
 
@@ -156,14 +157,8 @@ extern "C" void harness_main()
   Var answer;
   int ret = eval_expression(ctx, answer);
   symx_note("ret", (uint64_t)(int64_t)ret);
-  if (known_three_level())
-  {
-    symx_cover("known:C04-prec3");
-#ifdef SHOW_KNOWN
-    symx_assert(ret == 0 && answer.get_type() == VAR_INT && answer.get_int64() == expect, "KNOWN three-level precedence");
-#endif
-  }
-  else if (o_novalue == 2)
+  if (known_three_level()) symx_cover("three-tightening-levels");     // the class that used to be a recorded finding (now repaired and asserted like every other)
+  if (o_novalue == 2)
   {
     // shift count outside 0..63: C++ leaves it undefined; the engine reports the UB at the shift itself
     symx_cover("shift-out-of-range");
